@@ -212,7 +212,183 @@ pub fn dispatch(kind: &str, a: &[&str]) -> Option<String> {
             }
         }
         // <<< a_c06
+        _ => return dispatch_mirror(kind, a), // a_c03: additional kinds below
+    };
+    Some(r)
+}
+
+// >>> a_c03: "mirrors the token stream" checked on the real tape against the real Lexer's tokens.
+// raw token stream = Lexer::read_token, except that the RGB id is an ordinary id (the tape parser
+// decides by context whether an rgb block follows); the tape parser's loop stops when fewer than two
+// bytes remain.  untape = the token stream a tape denotes (container start -> `{`, End -> `}`,
+// MixedContainer -> nothing, Rgb -> its seven/eight tokens).  Both are compared without `=`:
+//   m: the stream is the tape plus deleted adjacent `{ }` pairs (ghost objects)      y / n
+//   s: the tape is a subsequence of the stream (nothing fabricated, altered, reordered) y / n
+//   x: the parser accepted an input that the lexer cannot tokenize
+mod mirror {
+    use super::*;
+    use jomini::binary::{LexemeId, Lexer, Token};
+
+    fn show_raw(t: &Token) -> String {
+        match t {
+            Token::Open => "{".into(),
+            Token::Close => "}".into(),
+            Token::Equal => "=".into(),
+            Token::U32(x) => format!("U32:{}", x),
+            Token::U64(x) => format!("U64:{}", x),
+            Token::I32(x) => format!("I32:{}", x),
+            Token::Bool(b) => format!("B:{}", if *b { 1 } else { 0 }),
+            Token::Quoted(s) => format!("Q:{}", hex(s.as_bytes())),
+            Token::Unquoted(s) => format!("U:{}", hex(s.as_bytes())),
+            Token::F32(x) => format!("F32:{}", hex(x)),
+            Token::F64(x) => format!("F64:{}", hex(x)),
+            Token::Rgb(_) => "RGB?".into(),
+            Token::I64(x) => format!("I64:{}", x),
+            Token::Id(x) => format!("T:{}", x),
+        }
+    }
+
+    pub fn raw_lex(data: &[u8]) -> Option<Vec<String>> {
+        let mut lx = Lexer::new(data);
+        let mut out = Vec::new();
+        while lx.remainder().len() >= 2 {
+            let id = lx.peek_id()?;
+            if id == LexemeId::RGB {
+                lx.read_id().ok()?;
+                out.push(format!("T:{}", LexemeId::RGB.0));
+            } else {
+                match lx.read_token() {
+                    Ok(t) => out.push(show_raw(&t)),
+                    Err(_) => return None,
+                }
+            }
+        }
+        Some(out)
+    }
+
+    pub fn untape(toks: &[BinaryToken]) -> Vec<String> {
+        let mut out = Vec::new();
+        for t in toks {
+            match t {
+                BinaryToken::Array(_) | BinaryToken::Object(_) => out.push("{".into()),
+                BinaryToken::End(_) => out.push("}".into()),
+                BinaryToken::MixedContainer => {}
+                BinaryToken::Equal => out.push("=".into()),
+                BinaryToken::Rgb(c) => {
+                    out.push(format!("T:{}", LexemeId::RGB.0));
+                    out.push("{".into());
+                    out.push(format!("U32:{}", c.r));
+                    out.push(format!("U32:{}", c.g));
+                    out.push(format!("U32:{}", c.b));
+                    if let Some(a) = c.a {
+                        out.push(format!("U32:{}", a));
+                    }
+                    out.push("}".into());
+                }
+                other => out.push(show_tok(other)),
+            }
+        }
+        out
+    }
+
+    fn ge(s: &[String], t: &[String], i: usize, j: usize, dead: &mut std::collections::HashSet<(usize, usize)>) -> bool {
+        if dead.contains(&(i, j)) {
+            return false;
+        }
+        let r = if i == s.len() {
+            j == t.len()
+        } else {
+            (j < t.len() && s[i] == t[j] && ge(s, t, i + 1, j + 1, dead))
+                || (i + 1 < s.len() && s[i] == "{" && s[i + 1] == "}" && ge(s, t, i + 2, j, dead))
+        };
+        if !r {
+            dead.insert((i, j));
+        }
+        r
+    }
+
+    fn sub(s: &[String], t: &[String]) -> bool {
+        let mut i = 0;
+        for x in t {
+            while i < s.len() && &s[i] != x {
+                i += 1;
+            }
+            if i == s.len() {
+                return false;
+            }
+            i += 1;
+        }
+        true
+    }
+
+    pub fn flags(data: &[u8], res: Result<(), jomini::Error>, tape: &BinaryTape) -> String {
+        if res.is_err() {
+            return "--".into();
+        }
+        let s: Vec<String> = match raw_lex(data) {
+            Some(v) => v.into_iter().filter(|x| x != "=").collect(),
+            None => return "xx".into(),
+        };
+        let t: Vec<String> = untape(tape.tokens()).into_iter().filter(|x| x != "=").collect();
+        let mut dead = std::collections::HashSet::new();
+        let m = ge(&s, &t, 0, 0, &mut dead);
+        format!("{}{}", if m { 'y' } else { 'n' }, if sub(&s, &t) { 'y' } else { 'n' })
+    }
+}
+
+pub fn dispatch_mirror(kind: &str, a: &[&str]) -> Option<String> {
+    let r = match (kind, a) {
+        ("bt.mir", [h]) => {
+            let data = unhex(h);
+            let mut t1 = BinaryTape::new();
+            let mut t2 = BinaryTape::new();
+            let ro = BinaryTapeParser.parse_slice_into_tape(&data, &mut t1);
+            let rr = BinaryTapeParser.parse_slice_into_tape_unoptimized(&data, &mut t2);
+            format!("opt={} ref={}", mirror::flags(&data, ro, &t1), mirror::flags(&data, rr, &t2))
+        }
+        // a chain of parses into ONE tape (h1;h2;...;hn), the tape shown after the last one, and a
+        // fresh-tape parse of the last input by each entry point next to it: previously used tape = fresh tape
+        ("bt.chain", [hs]) => {
+            let datas: Vec<Vec<u8>> = hs.split(';').map(|h| unhex(h)).collect();
+            let mut t1 = BinaryTape::new();
+            let mut t2 = BinaryTape::new();
+            let mut last = String::from("NONE");
+            for (k, d) in datas.iter().enumerate() {
+                // alternate the entry point that fills the shared tapes
+                let (ro, rr) = if k % 2 == 0 {
+                    (
+                        BinaryTapeParser.parse_slice_into_tape(d, &mut t1),
+                        BinaryTapeParser.parse_slice_into_tape_unoptimized(d, &mut t2),
+                    )
+                } else {
+                    (
+                        BinaryTapeParser.parse_slice_into_tape_unoptimized(d, &mut t1),
+                        BinaryTapeParser.parse_slice_into_tape(d, &mut t2),
+                    )
+                };
+                let so = match ro {
+                    Ok(()) => show_tape(t1.tokens()),
+                    Err(_) => "ERR".into(),
+                };
+                let sr = match rr {
+                    Ok(()) => show_tape(t2.tokens()),
+                    Err(_) => "ERR".into(),
+                };
+                let fo = match BinaryTapeParser.parse_slice(d) {
+                    Ok(t) => show_tape(t.tokens()),
+                    Err(_) => "ERR".into(),
+                };
+                let mut t3 = BinaryTape::new();
+                let fr = match BinaryTapeParser.parse_slice_into_tape_unoptimized(d, &mut t3) {
+                    Ok(()) => show_tape(t3.tokens()),
+                    Err(_) => "ERR".into(),
+                };
+                last = format!("a={} | b={} | fo={} | fr={}", so, sr, fo, fr);
+            }
+            last
+        }
         _ => return None,
     };
     Some(r)
 }
+// <<< a_c03
